@@ -28,15 +28,10 @@ def documented : List (String × String × String) := [
   ("morpho/manipulation.py:break_fragments", "attr", "fragments")
 ]
 
-/-- Writes that are NOT documented: genuine defects, recorded as `open` in `known_findings/C03.json` and reported as
-KNOWN-FINDING by the sweep.  Listed here so that the theorem below keeps checking on the unchanged tree; a repaired defect
-simply disappears from the generated list. -/
-def knownDefects : List (String × String × String) := [
-  ("graph/graph_utils.py:split_into_fragments", "call", "reroot"),              -- reroot_soma=True reroots the input
-  ("morpho/persistence.py:persistence_points", "call", "reroot"),               -- remove_cbf=True reroots the input
-  ("morpho/persistence.py:persistence_vector_plot", "via", "persistence_points"),
-  ("morpho/manipulation.py:average_skeletons", "attr", "tree")                  -- a KD-tree left on every input neuron
-]
+/- HISTORICAL: until the repairs a77a44b..ad739bb this file also carried a list `knownDefects` of undocumented writes
+   (`split_into_fragments` / `persistence_points` rerooting their input under `reroot_soma=True` / `remove_cbf=True`,
+   `persistence_vector_plot` through the latter, `average_skeletons` leaving a `tree` attribute on every input neuron).  They are
+   repaired in navis; the whitelist has no exceptions any more, so each of them is an ordinary violation if it returns. -/
 
 /-- The first argument is not a neuron on the path that writes (a list of plain records built by the caller). -/
 def notANeuron : List (String × String × String) := [
@@ -44,7 +39,7 @@ def notANeuron : List (String × String × String) := [
 ]
 
 def allowed (w : String × String × String) : Bool :=
-  documented.contains w || knownDefects.contains w || notANeuron.contains w
+  documented.contains w || notANeuron.contains w
 
 /-- the documented node-table annotation columns of a function (what the sweep whitelists, per function and per column) -/
 def annotationsOf (key kind : String) : List String :=
